@@ -10,7 +10,7 @@ for d in sorted(glob.glob("/verif/seeded/*")):
     diff = open(os.path.join(d, "patch.diff")).read()
     files = sorted(set(re.findall(r"^\+\+\+ b/src/nfc/(\S+)", diff, re.M)))
     need = m.get("needs_to_manifest_short") or ""
-    for chk, res in m["detected_by"].items():
+    for chk, res in m.get("first_detected_by", m["detected_by"]).items():
         line = res[0] if res else ""
         mm = re.match(r"\S+ exit=(\d+) (.*)", line)
         rc = mm.group(1) if mm else "?"
